@@ -94,8 +94,9 @@ def setup(fw):
 class RecTransport:
     """records everything the protocol does to its transport; both Twisted and asyncio method names"""
 
-    def __init__(self, env, peer=("127.0.0.1", 12345)):
+    def __init__(self, env, peer=("127.0.0.1", 12345), trace=None):
         self.env = env
+        self.trace = trace     # optional list shared with the application-event recorder (one total order)
         self.log = []          # ("write", bytes) | ("lose",) | ("abort",)
         self.closed = False
         self.proto = None
@@ -105,6 +106,8 @@ class RecTransport:
     # --- twisted
     def write(self, data):
         self.log.append(("write", bytes(data), self.env.now()))
+        if self.trace is not None:
+            self.trace.append(("write", bytes(data)))
 
     def writeSequence(self, seq):
         for d in seq:
@@ -112,10 +115,14 @@ class RecTransport:
 
     def loseConnection(self):
         self.log.append(("lose", self.env.now()))
+        if self.trace is not None:
+            self.trace.append(("lose",))
         self.closed = True
 
     def abortConnection(self):
         self.log.append(("abort", self.env.now()))
+        if self.trace is not None:
+            self.trace.append(("abort",))
         self.closed = True
 
     def registerProducer(self, producer, streaming):
@@ -267,7 +274,7 @@ def make_ws(env, role, opts=None, handshake=True, ext_request=None, ext_response
     if on_connect:
         p._v_onConnect = on_connect
     ep.proto = p
-    t = RecTransport(env)
+    t = RecTransport(env, trace=ep.events)
     t.proto = p
     ep.transport = t
     if env.fw == "twisted":
